@@ -6,6 +6,7 @@ import (
 	"io"
 	"os"
 	"path/filepath"
+	"sync"
 
 	"github.com/go-git/go-billy/v5"
 )
@@ -16,6 +17,11 @@ type PersistedClock struct {
 	*MemClock
 	root     billy.Filesystem
 	filePath string
+
+	// mu makes "update the value in memory, then persist it" one step: without it two concurrent
+	// increments could persist their values in the opposite order and leave the file behind the
+	// value in memory (and behind times already written in commits).
+	mu sync.Mutex
 }
 
 // NewPersistedClock create a new persisted Lamport clock
@@ -51,6 +57,9 @@ func LoadPersistedClock(root billy.Filesystem, filePath string) (*PersistedClock
 
 // Increment is used to return the value of the lamport clock and increment it afterwards
 func (pc *PersistedClock) Increment() (Time, error) {
+	pc.mu.Lock()
+	defer pc.mu.Unlock()
+
 	time, err := pc.MemClock.Increment()
 	if err != nil {
 		return 0, err
@@ -61,6 +70,9 @@ func (pc *PersistedClock) Increment() (Time, error) {
 // Witness is called to update our local clock if necessary after
 // witnessing a clock value received from another process
 func (pc *PersistedClock) Witness(time Time) error {
+	pc.mu.Lock()
+	defer pc.mu.Unlock()
+
 	// TODO: rework so that we write only when the clock was actually updated
 	err := pc.MemClock.Witness(time)
 	if err != nil {
